@@ -13,7 +13,18 @@ use std::io::Write as _;
 use std::path::{Path, PathBuf};
 use std::time::Instant;
 
-pub const VERIF: &str = "/verif";
+/// The verification directory this binary belongs to: <verif>/sim/target/release/ttg-sim
+/// (so that a copy of /verif running elsewhere writes its evidence and replays there).
+pub fn verif_dir() -> String {
+    if let Ok(exe) = std::env::current_exe() {
+        if let Some(root) = exe.ancestors().nth(4) {
+            if root.join("sim").is_dir() && root.join("properties.jsonl").is_file() {
+                return root.to_string_lossy().into_owned();
+            }
+        }
+    }
+    "/verif".to_string()
+}
 
 #[derive(Clone, Copy, Debug, PartialEq, Eq)]
 pub enum Tier {
@@ -249,7 +260,7 @@ pub struct Finding {
 }
 
 pub fn load_findings() -> Vec<Finding> {
-    let p = format!("{}/known_findings.json", VERIF);
+    let p = format!("{}/known_findings.json", verif_dir());
     match std::fs::read_to_string(&p) {
         Ok(s) => {
             let v: Value = serde_json::from_str(&s).expect("known_findings.json parses");
@@ -551,7 +562,7 @@ pub fn run_check(check: &dyn Check, tier: Tier, seed: u64, limit: Option<u64>) -
 
     // replay files for unknown signatures; confirm each in a fresh process
     let mut violation_lines: Vec<String> = vec![];
-    let replay_dir = format!("{}/replays", VERIF);
+    let replay_dir = format!("{}/replays", verif_dir());
     let _ = std::fs::create_dir_all(&replay_dir);
     let mut written: BTreeSet<String> = BTreeSet::new();
     for r in &m.replays {
@@ -647,7 +658,7 @@ pub fn run_check(check: &dyn Check, tier: Tier, seed: u64, limit: Option<u64>) -
         },
         "assumptions": check.assumptions(),
     });
-    let ev_dir = format!("{}/evidence", VERIF);
+    let ev_dir = format!("{}/evidence", verif_dir());
     let _ = std::fs::create_dir_all(&ev_dir);
     std::fs::write(
         format!("{}/{}.json", ev_dir, check.id()),
